@@ -3,7 +3,8 @@ From Coq Require Import String.
 From Coq Require Import List NArith ZArith Lia Bool QArith.
 From AV Require Import model.Proto model.Bits model.Chain model.Program model.Peg model.AstProto model.Gen
   model.Calc model.Search model.SearchEns.
-From AV Require Import proofs.SearchProofs proofs.SearchMain proofs.SearchEnsProofs proofs.SearchGen.
+From AV Require model.Cli model.Translate.
+From AV Require Import proofs.SearchProofs proofs.SearchMain proofs.SearchEnsProofs proofs.SearchGen proofs.SearchFmtB.
 Import ListNotations.
 Open Scope Z_scope.
 
@@ -12,9 +13,14 @@ Definition builtin_templates : list (list N) := [$"listing"; $"chain"; $"ops"; $
 (* what is proved of a successful run beyond consistent_report: gen on the printed script *)
 Definition gen_clause (n : Z) (o : sout) : Prop :=
   forall tmpl, In tmpl builtin_templates ->
-  (2 <= n -> exists t, parse (so_stdout o) = Ok t /\
-               (script_huge t = false -> exists out, gen default_cfg tmpl (so_stdout o) = Ok out)) /\
+  (2 <= n -> exists out, gen default_cfg tmpl (so_stdout o) = Ok out) /\
   (n = 1 -> gen default_cfg tmpl (so_stdout o) = Err ($"empty")).
+
+(* fmt -b (parse, Translate, acc.Build on the named program, print: model/Cli.v) accepts the printed script
+   and what it prints loads to a genuine chain ending in n *)
+Definition fmtb_clause (n : Z) (o : sout) : Prop :=
+  exists out ir ops c, Cli.fmt_out true (so_stdout o) = Ok out /\
+    Translate.load_m out = Ok (ir, ops, c) /\ last c 0 = n /\ is_chain c.
 
 Lemma gen_one : forall tmpl, gen default_cfg tmpl ($"return  1" ++ [10%N]) = Err ($"empty").
 Proof. intros tmpl. vm_compute. reflexivity. Qed.
@@ -23,12 +29,13 @@ Theorem search_full_all : forall orcs expr p w n,
   eval expr = Ok n -> 1 <= n -> Z.of_N (bitlen n) < 2 ^ 64 -> 1 <= p ->
   (forall rs, ens_model orcs n = Ok rs -> Forall fits_slice rs) ->
   (exists rs o, ens_model orcs n = Ok rs /\ search_full orcs expr p w = Ok o /\
-                consistent_report w n rs o /\ gen_clause n o) \/
+                consistent_report w n rs o /\ gen_clause n o /\ fmtb_clause n o) \/
   (search_full orcs expr p w = Err ($"alg") /\ exists j, orcs j <> None).
 Proof.
   intros orcs expr p w n He Hn Hb Hp Hfit.
   destruct (search_full_consistent orcs expr p w n He Hn Hb Hp Hfit) as [(rs & o & Er & Es & Hc & Hg & Hs)|H]; [left|right; exact H].
   exists rs, o. split; [exact Er|]. split; [exact Es|]. split; [exact Hc|].
+  split; [|exact (consistent_fmtb w n rs o Hg Hs Hc)].
   intros tmpl Ht. split.
   - intros H2. exact (consistent_gen w n rs o tmpl H2 Hg Hs Hc Ht).
   - intros ->. destruct (consistent_one w rs o Hg Hc) as (-> & _). apply gen_one.
